@@ -436,6 +436,7 @@ type player struct {
 	probeNo  int
 	dead     bool // a wait timed out already: do not wait at full length again in this session
 	finishing bool // the session is being ended: the full deadline applies to the cleanup waits
+	patient   bool // the current wait is for something that legitimately takes a moment
 	ending   string
 }
 
@@ -446,6 +447,9 @@ func (p *player) waitFor(what string, cond func() bool) bool {
 	d := p.deadline
 	if p.dead {
 		d = d / 20
+		if p.patient && d < 3*time.Second {
+			d = 3 * time.Second // a server-side close takes up to a second by design (it waits for the echo)
+		}
 	}
 	t0 := time.Now()
 	sleep := 20 * time.Microsecond
@@ -738,6 +742,7 @@ func (p *player) finish(ending string, closeSent bool) {
 	case "sclose":
 		done := make(chan struct{})
 		go func() { p.w.api.CloseHijackedConnections(); close(done) }()
+		p.patient = true
 		if !p.waitFor("CloseHijackedConnections to return", func() bool {
 			select {
 			case <-done:
@@ -748,6 +753,7 @@ func (p *player) finish(ending string, closeSent bool) {
 		}) {
 			p.anom = append(p.anom, "CloseHijackedConnections did not return")
 		}
+		p.patient = false
 		p.waitFor("the server to close the connection", readerDone)
 	case "drop":
 		p.conn.UnderlyingConn().Close()
